@@ -58,6 +58,10 @@ Opaque(l, a, b)   == [t |-> "Opaque", l |-> l, a |-> a, b |-> b]
 Vec(l, a, b, e)   == [t |-> "Vec", l |-> l, a |-> a, b |-> b, e |-> e]
 Struct(fs)        == [t |-> "Struct", fs |-> fs]
 Block(l, s)       == [t |-> "Block", l |-> l, s |-> s]
+\* SSLv2 record header (SSL 2.0 specification, record header format): value <<length, padding, escape>>.
+\* 2-byte form (no padding, no security escape): 1 lllllll llllllll            (15-bit length)
+\* 3-byte form:                                    0 e llllll llllllll pppppppp  (14-bit length, escape bit, padding)
+RH2               == [t |-> "RH2"]
 Many(e)           == [t |-> "Many", e |-> e]
 Opt(s)            == [t |-> "Opt", s |-> s]
 Rest              == [t |-> "Rest"]
@@ -86,6 +90,8 @@ Enc(s, v) ==
     [] s.t = "Fixed"  -> v
     [] s.t = "Rest"   -> v
     [] s.t = "Opaque" -> BE(Len(v), s.l) \o v
+    [] s.t = "RH2"    -> IF v[2] = 0 /\ v[3] = 0 THEN <<128 + (v[1] \div 256), v[1] % 256>>
+                         ELSE <<64 * v[3] + (v[1] \div 256), v[1] % 256, v[2]>>
     [] s.t = "Vec"    -> LET body == EncMany(s.e, v) IN BE(Len(body), s.l) \o body
     [] s.t = "Many"   -> EncMany(s.e, v)
     [] s.t = "Block"  -> LET body == Enc(s.s, v) IN BE(Len(body), s.l) \o body
@@ -103,6 +109,8 @@ Fits(s, v, strict) ==
     [] s.t = "Rest"   -> TRUE
     [] s.t = "Opaque" -> /\ Len(v) < Pow256(s.l)
                          /\ strict => (Len(v) >= s.a /\ Len(v) <= s.b)
+    [] s.t = "RH2"    -> /\ v[1] >= 0 /\ v[2] \in 0..255 /\ v[3] \in {0, 1}
+                         /\ v[1] < (IF v[2] = 0 /\ v[3] = 0 THEN 32768 ELSE 16384)
     [] s.t = "Vec"    -> /\ AllIn(v, LAMBDA x : Fits(s.e, x, strict))
                          /\ LET n == Len(EncMany(s.e, v)) IN
                               /\ n < Pow256(s.l)
@@ -149,6 +157,10 @@ D(s, b, lo, hi, strict) ==
                               IF lo + s.l + n - 1 > hi THEN Err
                               ELSE IF strict /\ (n < s.a \/ n > s.b) THEN Err
                               ELSE Ok(SubSeq(b, lo + s.l, lo + s.l + n - 1), lo + s.l + n)
+    [] s.t = "RH2"    -> IF lo + 1 > hi THEN Err
+                         ELSE IF b[lo] >= 128 THEN Ok(<<(b[lo] - 128) * 256 + b[lo + 1], 0, 0>>, lo + 2)
+                         ELSE IF lo + 2 > hi THEN Err
+                         ELSE Ok(<<(b[lo] % 64) * 256 + b[lo + 1], b[lo + 2], b[lo] \div 64>>, lo + 3)
     [] s.t = "Vec"    -> IF lo + s.l - 1 > hi THEN Err
                          ELSE LET n == BEVal(b, lo, s.l) IN
                               IF lo + s.l + n - 1 > hi THEN Err
@@ -189,6 +201,7 @@ Lay(s, v, off) ==
     [] s.t = "Fixed"  -> <<>>
     [] s.t = "Rest"   -> <<>>
     [] s.t = "Opaque" -> <<Item("len", off, s.l, off + s.l + Len(v))>>
+    [] s.t = "RH2"    -> <<>>
     [] s.t = "Vec"    -> <<Item("len", off, s.l, off + s.l + Len(EncMany(s.e, v)))>>
                          \o LayMany(s.e, v, off + s.l)
     [] s.t = "Many"   -> LayMany(s.e, v, off)
@@ -212,6 +225,7 @@ Typ(s) ==
     [] s.t = "Fixed"  -> Pattern(s.n)
     [] s.t = "Rest"   -> Pattern(3)
     [] s.t = "Opaque" -> Pattern(IF s.b < 5 THEN s.b ELSE IF s.a > 5 THEN s.a ELSE 5)
+    [] s.t = "RH2"    -> <<300, 0, 0>>
     [] s.t = "Vec"    -> <<Typ(s.e)>>
     [] s.t = "Many"   -> <<Typ(s.e)>>
     [] s.t = "Block"  -> Typ(s.s)
@@ -256,6 +270,9 @@ Samples(s, cap) ==
                          \o (IF cap >= 65536 THEN <<Pattern(65535), Pattern(65536)>> ELSE <<>>)
     [] s.t = "Opaque" -> LET ls == Lens(s.l, s.a, s.b, cap) IN
                          <<Typ(s)>> \o [i \in 1..Len(ls) |-> Pattern(ls[i])]
+    [] s.t = "RH2"    -> LET lens == <<0, 1, 255, 256, 16383, 16384, 16385, 21044, 32767, 32768, 40000>>
+                             forms == <<<<0, 0>>, <<0, 1>>, <<7, 0>>, <<7, 1>>, <<255, 1>>>>
+                         IN Cat([i \in 1..Len(lens) |-> [j \in 1..Len(forms) |-> <<lens[i], forms[j][1], forms[j][2]>>]])
     [] s.t = "Vec"    -> SamplesMany(s.e, cap, s.l)
     [] s.t = "Many"   -> SamplesMany(s.e, cap, 0)
     [] s.t = "Block"  -> Samples(s.s, cap)
